@@ -74,6 +74,9 @@ void harness(void) {
             uint32_t sz = on_disk(L);
             CHECK(L <= PMAX + 8 && sz <= maxlen, "payload accepted only if it fits the caller's buffer (size on disk)");
             CHECK((int64_t) (64 + sz) <= (int64_t) flen, "success requires the complete payload + checksum in the file");
+            if (!(L <= PMAX + 8 && sz <= maxlen && (int64_t) (64 + sz) <= (int64_t) flen)) {
+                return;     /* already reported; the remaining comparisons need these bounds */
+            }
             CHECK(jls_crc32c(membk_file + 64, L) == rd_u32(membk_file + 64 + sz - 4), "payload accepted only if its checksum over payload_length bytes matches the stored footer");
             SYM_U32(wi);
             ASSUME(wi < PMAX + 8);
@@ -192,8 +195,16 @@ void harness(void) {
     if (raw) {
         struct jls_chunk_header_s hdr;
         static uint8_t payload[128];
-        for (unsigned k = 0; k < 3; ++k) {
+#ifndef NOPS
+#define NOPS 2
+#endif
+        for (unsigned k = 0; k < NOPS; ++k) {
             SYM_U8(op);
+#ifdef ONLY_SCAN
+            ASSUME((op & 15) == 11);
+#else
+            ASSUME((op & 15) != 11);
+#endif
             SYM_I64(arg);
             switch (op & 15) {
                 case 0: jls_raw_rd(raw, &hdr, sizeof(payload), payload); break;
